@@ -4,7 +4,7 @@
 
    A case is (problem (status (snap ...))); a snap is
      (kind lvl (trail) (model) (reasons) (assumptions) (conflict) (constraints) done reskind (learnt) unit (props) newlvl
-      nborig cp restarts (heap content) (heap indices))
+      nborig cp restarts (heap content) (heap indices) ((watched literal ...) ...) ((pb flag ...) ...))
    where a constraint is (card w1 l1 w2 l2 ...) in the order of the Go clause, a missing reason is ().
      kind 0: conflict handed to learnClause.     The state must meet the hypotheses of the theorems of
              Properties/C06l.v (state_okb, confl_okb) and learnClause must have returned what Model.Learn.learn_clause
@@ -60,16 +60,18 @@ Record snap := Snap {
   sn_kind : Z; sn_lvl : Z; sn_trail : list Z; sn_model : list Z; sn_reasons : list (option pbc);
   sn_assum : list bool; sn_confl : option pbc; sn_constrs : list pbc;
   sn_done : bool; sn_reskind : Z; sn_learnt : list Z; sn_unit : Z; sn_props : list Z; sn_newlvl : Z;
-  sn_norig : Z; sn_cp : bool; sn_restarts : Z; sn_heap : list Z; sn_hindex : list Z }.
+  sn_norig : Z; sn_cp : bool; sn_restarts : Z; sn_heap : list Z; sn_hindex : list Z;
+  sn_watched : list (list Z); sn_pbflags : list (list Z) }.
 
 Definition dsnap (s : sx) : option snap :=
   match s with
-  | L [I kind; I lvl; tr; md; L rs; asm; cf; L cs; dn; I rk; lr; I u; pr; I nl; I no; cpf; I nrst; hc; hi] =>
+  | L [I kind; I lvl; tr; md; L rs; asm; cf; L cs; dn; I rk; lr; I u; pr; I nl; I no; cpf; I nrst; hc; hi; wt; pf] =>
     match dZs tr, dZs md, omap dreason rs, dbools asm, dreason cf, omap dconstr cs, dbool dn, dZs lr, dZs pr, dbool cpf,
-          dZs hc, dZs hi with
-    | Some tr', Some md', Some rs', Some asm', Some cf', Some cs', Some dn', Some lr', Some pr', Some cp', Some hc', Some hi' =>
-      Some (Snap kind lvl (dedup_trail [] tr') md' rs' asm' cf' cs' dn' rk lr' u pr' nl no cp' nrst hc' hi')
-    | _, _, _, _, _, _, _, _, _, _, _, _ => None
+          dZs hc, dZs hi, dZss wt, dZss pf with
+    | Some tr', Some md', Some rs', Some asm', Some cf', Some cs', Some dn', Some lr', Some pr', Some cp', Some hc', Some hi',
+      Some wt', Some pf' =>
+      Some (Snap kind lvl (dedup_trail [] tr') md' rs' asm' cf' cs' dn' rk lr' u pr' nl no cp' nrst hc' hi' wt' pf')
+    | _, _, _, _, _, _, _, _, _, _, _, _, _, _ => None
     end
   | _ => None
   end.
@@ -224,7 +226,62 @@ Definition heap_okb (md hc hi : list Z) : bool :=
   forallb (fun p => let '(v, a) := p in negb (a =? 0) || existsb (Z.eqb (Z.of_nat v)) hc)
           (combine (seq 0 (List.length md)) md).
 
+(* The watch lists at a quiet point.  For each constraint held: [wt] = the literals through which the watch lists reach it
+   (it sits in the list of their negation), [fl] = pbData.watched when it has weights.
+   1. Shape: a clause is watched through its first two literals, a cardinality constraint through its first degree+1
+      literals, a PB constraint through exactly its flagged literals.
+   2. Enough to see every conflict coming (the content of C02_clause_rule_quiet, C02_card_rule_complete,
+      C02_watch_pb_conflict_complete): a watched literal may be false only if the constraint is satisfied by literals that are
+      true at a level not above that of the false literal (they stay as long as it stays); and when no watched literal is
+      false, a PB constraint is watched for more than its degree, or is satisfied.
+   Demanded of the original constraints, and of learned clauses of the CDCL loop; constraints learned by the cutting-planes
+   loop are added with literals that are already false and are not needed for the answer (missing one of their conflicts loses
+   pruning only). *)
+Definition lvl_in (md : list Z) (l : lit) : Z := Z.abs (mval md l).
+Definition l_true (md : list Z) (l : lit) : bool :=
+  let a := mval md l in negb (a =? 0) && Bool.eqb (0 <? a) (0 <? l).
+
+Fixpoint select_flags (fl : list Z) (ts : list term) : list term :=
+  match fl, ts with
+  | f :: fr, t :: tr => if f =? 1 then t :: select_flags fr tr else select_flags fr tr
+  | _, _ => []
+  end.
+
+Definition watch_okb (md : list Z) (c : pbc) (wt fl : list Z) : bool :=
+  let ts := terms c in
+  let expected : list term :=
+    match fl with
+    | _ :: _ => select_flags fl ts
+    | [] => if 1 <? degree c then firstn (Z.to_nat (degree c + 1)) ts else firstn 2 ts
+    end in
+  let sat_upto (lv : Z) : Z :=
+    fold_right (fun t acc => (if l_true md (snd t) && (lvl_in md (snd t) <=? lv) then fst t else 0) + acc) 0 ts in
+  eqb_Zs (sort_Zs wt) (sort_Zs (map snd expected)) &&
+  match filter (fun t => l_false md (snd t)) expected with
+  | [] =>
+    match fl with
+    | _ :: _ => (degree c <? fold_right (fun t acc => fst t + acc) 0 expected) || (degree c <=? sat_upto (Z.of_nat (List.length md) + 2))
+    | [] => true
+    end
+  | fw => forallb (fun w => degree c <=? sat_upto (lvl_in md (snd w))) fw
+  end.
+
+Fixpoint first_bad_watch (norig : Z) (cp : bool) (md : list Z) (cs : list pbc) (wts fls : list (list Z)) (i : Z) : option Z :=
+  match cs, wts, fls with
+  | c :: cr, wt :: wr, fl :: fr =>
+    if (negb ((i <? norig) || negb cp)) || watch_okb md c wt fl then first_bad_watch norig cp md cr wr fr (i + 1) else Some i
+  | _, _, _ => None
+  end.
+
 Definition judge_quiet_snap (sn : snap) : verdict :=
+  if match sn_watched sn with
+     | [] => false      (* no watch data (whole-run traces, or a build without that hook field) *)
+     | _ => match first_bad_watch (sn_norig sn) (sn_cp sn) (sn_model sn) (sn_constrs sn) (sn_watched sn) (sn_pbflags sn) 0 with
+            | Some _ => true | None => false end
+     end
+  then Fail "snap-watch-invariant"
+            (match first_bad_watch (sn_norig sn) (sn_cp sn) (sn_model sn) (sn_constrs sn) (sn_watched sn) (sn_pbflags sn) 0 with
+             | Some i => [i; sn_lvl sn] | None => [] end) else
   if match sn_heap sn, sn_hindex sn with [], [] => false | _, _ => negb (heap_okb (sn_model sn) (sn_heap sn) (sn_hindex sn)) end
   then Fail "snap-heap-invariant" [sn_lvl sn; Z.of_nat (List.length (sn_heap sn))] else
   if negb (state_okb (sn_trail sn) (sn_model sn) (sn_reasons sn) (sn_assum sn) (sn_lvl sn))
